@@ -386,8 +386,16 @@ impl WorldB {
                 Res::Disconnected { .. } => Some("client-disconnected"),
                 _ => None,
             };
+            // (only session datagrams sealed for the server can be replays of an earlier session; a server-to-client datagram
+            // thrown back at the server records client epochs in `accepted_in` and opens under no key the server holds)
             let reused = match sess_id {
-                Some(id) => self.ledger[ix].accepted_in.map(|n| n != self.sessions[&id].sess_no).unwrap_or(false),
+                Some(id) => {
+                    self.ledger[ix].sealed_c2s
+                        && matches!(producer, Producer::Client { .. })
+                        && matches!(ptype, T_KEEPALIVE | T_PAYLOAD | T_DISCONNECT)
+                        && Some(self.sessions[&id].tid) == rec_tid
+                        && self.ledger[ix].accepted_in.map(|n| n != self.sessions[&id].sess_no).unwrap_or(false)
+                }
                 None => false,
             };
             let why = if bogus {
